@@ -30,8 +30,8 @@ def has_quantifier(t):
     if isinstance(t, bool):
         return False
     key = t.get_id()
-    if key in _hq_cache:
-        return _hq_cache[key]
+    if key in _hq_cache and _hq_cache[key][1].eq(t):
+        return _hq_cache[key][0]
     stack, seen, res = [t], set(), False
     while stack:
         x = stack.pop()
@@ -42,13 +42,15 @@ def has_quantifier(t):
         if z3.is_quantifier(x):
             res = True
             break
-        if i in _hq_cache:
-            if _hq_cache[i]:
+        if i in _hq_cache and _hq_cache[i][1].eq(x):
+            if _hq_cache[i][0]:
                 res = True
                 break
             continue
         stack.extend(x.children())
-    _hq_cache[key] = res
+    if len(_hq_cache) > 200000:
+        _hq_cache.clear()
+    _hq_cache[key] = (res, t)       # the term is kept alive with its entry: z3 ast ids are reused after collection
     return res
 
 
@@ -275,7 +277,14 @@ class State:
             # claim is literally False on a feasible path
             status = 'refuted'
             model = self._model()
-            if self.imprecise:
+            if model is None and self.model_status == 'unsat':
+                raise PathEnd()       # the path is infeasible after all: nothing to prove on it
+            if model is None:
+                # the solver never confirmed this path as satisfiable (feasibility `unknown` counts as feasible
+                # for proofs only): no counterexample, hence not a refutation
+                status = 'undecided'
+                detail = (detail + ' claim is False on a path whose feasibility the solver could not decide')[:400]
+            elif self.imprecise:
                 status = 'undecided'
                 detail = (detail + ' sat on imprecise path: ' + '; '.join(self.imprecise_why))[:400]
             o = Obl(label, status, time.time() - t0, detail, model)
@@ -331,8 +340,11 @@ class State:
         self.assume(claim)
 
     def _model(self):
+        self.model_status = 'unknown'
         try:
-            if self.solver.check() != z3.sat:
+            r0 = self.solver.check()
+            self.model_status = str(r0)
+            if r0 != z3.sat:
                 return None
             m = self.solver.model()
             # prefer small counterexamples: bound the registered size terms, then loosen
